@@ -210,7 +210,7 @@ def constructors_agree(j, cases):
 
 # ---- valuations: near 0 / near pi round trips, q vs -q, embeddings --------------------------------
 
-def angle_set_bridges(j):
+def angle_set_bridges(j, rng=None):
     """an angle set extracted from one representation and fed to the same named constructor of ANOTHER class gives
     the same rotation - at the singular configurations of the angle set too (Euler middle angle 0 / pi, pitch +-90 deg)"""
     from spatialmath import SO3, SE3, UnitQuaternion
@@ -219,6 +219,10 @@ def angle_set_bridges(j):
                 "half-turn-xy-axis": gamma.rotz(0.7) @ gamma.rotx(math.pi) @ gamma.rotz(-0.7), "eul-middle-0": gamma.rotz(0.9),
                 "pitch+90": gamma.rotz(0.3) @ gamma.roty(hp) @ gamma.rotx(-0.5), "pitch-90": gamma.rotz(-1.2) @ gamma.roty(-hp) @ gamma.rotx(0.8),
                 "generic": gamma.rotz(0.3) @ gamma.roty(-0.5) @ gamma.rotx(1.1)}
+    if rng is not None:
+        # rotations all over the group: every branch of the extraction formulas (which entry dominates) is taken
+        for i in range(40):
+            specials["random-%02d" % i] = gamma.rotz(rng.uniform(-3.1, 3.1)) @ gamma.roty(rng.uniform(-3.1, 3.1)) @ gamma.rotx(rng.uniform(-3.1, 3.1))
     for tag, R in specials.items():
         T = np.eye(4)
         T[:3, :3] = R
@@ -230,21 +234,21 @@ def angle_set_bridges(j):
                    "SE3.rpy(yxz,deg)->SO3.RPY(yxz,deg)": lambda: SO3.RPY(SE3(T, check=False).rpy(order="yxz", unit="deg"), order="yxz", unit="deg").R,
                    "SO3.angvec->UnitQuaternion.AngVec": lambda: UnitQuaternion.AngVec(*SO3(R, check=False).angvec()).R}
         for name, fn in bridges.items():
-            cid = ("bridge", name, tag)
+            cid = ("bridge", name, "random" if tag.startswith("random") else tag)
             try:
                 d = float(np.max(np.abs(np.asarray(fn(), dtype=float) - R)))
             except Exception as ex:  # noqa: BLE001
-                j.fail("%s|%s|%s|raised-%s" % (PID, name, tag, type(ex).__name__), {"kind": "bridge", "R": R.tolist()}, cid)
+                j.fail("%s|%s|%s|raised-%s" % (PID, name, "random" if tag.startswith("random") else tag, type(ex).__name__), {"kind": "bridge", "R": R.tolist()}, cid)
                 continue
             if d > TOL:
-                j.fail("%s|%s|%s|different-rotation" % (PID, name, tag), {"kind": "bridge", "R": R.tolist(), "distance": d}, cid)
+                j.fail("%s|%s|%s|different-rotation" % (PID, name, "random" if tag.startswith("random") else tag), {"kind": "bridge", "R": R.tolist(), "distance": d}, cid)
             else:
                 j.ok(cid)
 
 
 def valuations(j, rng, n):
     from spatialmath import SO2, SE2, SO3, SE3, UnitQuaternion, Twist3, Twist2
-    angle_set_bridges(j)
+    angle_set_bridges(j, rng)
     angs = [0.0, 1e-12, 1e-9, 3e-9, 1e-6, 0.5, math.pi / 2, 2.5, math.pi - 1e-6, math.pi - 3e-9,
             math.pi - 1e-9, math.pi - 1e-12, math.pi]
     for k in range(n):
@@ -270,6 +274,15 @@ def valuations(j, rng, n):
             routes["UnitQuaternion->log->SO3.Exp"] = (lambda: SO3.Exp(2 * np.asarray(UnitQuaternion(SO3(R, check=False)).log().v)).A, R, 1.0)
             routes["UnitQuaternion(-q)->log->SO3.Exp"] = (
                 lambda: SO3.Exp(2 * np.asarray(UnitQuaternion(-UnitQuaternion(SO3(R, check=False)).vec, norm=False, check=False).log().v)).A, R, 1.0)
+        # a unit revolute twist about an axis through a point, exponentiated with the angle a (0 included), is the
+        # rotation by a about that axis through that point
+        uax = Q[:, k % 3]
+        qpt = np.array([0.5, -1.0, 2.0])
+        Tabout = np.eye(4)
+        Tabout[:3, :3] = R
+        Tabout[:3, 3] = qpt - R @ qpt
+        routes["Twist3.Revolute(axis,point).exp(angle)"] = (lambda: Twist3.Revolute(uax, qpt).exp(a).A, Tabout, 1.0)
+        routes["Twist3.Revolute(axis,point).exp(angle,deg)"] = (lambda: Twist3.Revolute(uax, qpt).exp(math.degrees(a), units="deg").A, Tabout, 1.0)
         # a twist times a pose is the product of the poses (mixed representations in one product)
         Y3 = SE3(0.5, -1.0, 2.0) * SE3.Ry(0.4)
         routes["Twist3*SE3"] = (lambda: (Twist3(SE3(T, check=False)) * Y3).A, T @ Y3.A, sc)
